@@ -1,2 +1,640 @@
-use crate::engine_a::ExecOut;
-pub fn run(_prop: &str, _thorough: bool, _case_seed: u64, _sub: u64) -> ExecOut { ExecOut::default() }
+//! Engine B: operation histories over FutureGroup / StreamGroup (insert, remove, reserve, extend, poll,
+//! fire wakers, keyed / plain view, drop), checked against a `live: key -> member` model after every
+//! operation and a per-poll reference model.
+
+use crate::child::*;
+use crate::dut::*;
+use crate::engine_a::{self, ExecOut, Profile};
+use crate::model;
+use crate::world::*;
+use futures_concurrency::future::{future_group, FutureGroup};
+use futures_concurrency::stream::{stream_group, StreamGroup};
+use futures_core::Stream;
+use std::collections::{BTreeMap, BTreeSet, VecDeque};
+use std::pin::Pin;
+use std::sync::Arc;
+use std::task::{Context, Poll, Waker};
+
+#[derive(Clone, Copy, PartialEq, Eq, PartialOrd, Ord, Debug)]
+enum K {
+    F(future_group::Key),
+    S(stream_group::Key),
+}
+
+enum G {
+    FK(Pin<Box<future_group::Keyed<BF>>>),
+    FP(Pin<Box<FutureGroup<BF>>>),
+    SK(Pin<Box<stream_group::Keyed<BS>>>),
+    SP(Pin<Box<StreamGroup<BS>>>),
+}
+
+/// group members are boxed: `insert` needs `&mut` access to the group, i.e. `Unpin` members
+enum Member {
+    F(BF),
+    S(BS),
+}
+
+impl G {
+    fn fg(&mut self) -> Option<&mut FutureGroup<BF>> {
+        match self {
+            G::FK(g) => Some(&mut **g.as_mut().get_mut()),
+            G::FP(g) => Some(g.as_mut().get_mut()),
+            _ => None,
+        }
+    }
+    fn sg(&mut self) -> Option<&mut StreamGroup<BS>> {
+        match self {
+            G::SK(g) => Some(&mut **g.as_mut().get_mut()),
+            G::SP(g) => Some(g.as_mut().get_mut()),
+            _ => None,
+        }
+    }
+    fn insert(&mut self, m: Member) -> K {
+        match m {
+            Member::F(f) => K::F(self.fg().unwrap().insert(f)),
+            Member::S(s) => K::S(self.sg().unwrap().insert(s)),
+        }
+    }
+    fn remove(&mut self, k: K) -> bool {
+        match k {
+            K::F(k) => self.fg().unwrap().remove(k),
+            K::S(k) => self.sg().unwrap().remove(k),
+        }
+    }
+    fn contains(&mut self, k: K) -> bool {
+        match k {
+            K::F(k) => self.fg().unwrap().contains_key(k),
+            K::S(k) => self.sg().unwrap().contains_key(k),
+        }
+    }
+    fn reserve(&mut self, n: usize) {
+        if let Some(g) = self.fg() {
+            g.reserve(n)
+        } else {
+            self.sg().unwrap().reserve(n)
+        }
+    }
+    fn len_cap_empty(&mut self) -> (usize, usize, bool) {
+        if let Some(g) = self.fg() {
+            (g.len(), g.capacity(), g.is_empty())
+        } else {
+            let g = self.sg().unwrap();
+            (g.len(), g.capacity(), g.is_empty())
+        }
+    }
+    /// (key if keyed view, value id)
+    fn poll(&mut self, cx: &mut Context<'_>) -> Poll<Option<(Option<K>, u64)>> {
+        match self {
+            G::FK(g) => g.as_mut().poll_next(cx).map(|o| o.map(|(k, r)| (Some(K::F(k)), take_r(r).1))),
+            G::FP(g) => g.as_mut().poll_next(cx).map(|o| o.map(|r| (None, take_r(r).1))),
+            G::SK(g) => g.as_mut().poll_next(cx).map(|o| o.map(|(k, v)| (Some(K::S(k)), take_v(v)))),
+            G::SP(g) => g.as_mut().poll_next(cx).map(|o| o.map(|v| (None, take_v(v)))),
+        }
+    }
+}
+
+struct Hist {
+    streams: bool,
+    keyed: bool,
+    live: BTreeMap<K, Cid>,
+    /// members inserted through `extend`: their key is unknown until they are yielded
+    unknown: Vec<Cid>,
+    all_keys: Vec<K>,
+    ever_used: BTreeSet<K>,
+    slot_ids: BTreeMap<K, usize>,
+    prop: &'static str,
+    /// index-in-parent counter for members
+    next_idx: usize,
+}
+
+impl Hist {
+    fn slot_id(&mut self, k: K) -> usize {
+        let n = self.slot_ids.len();
+        *self.slot_ids.entry(k).or_insert(n)
+    }
+    fn viol(&self, msg: String) {
+        let p = self.prop;
+        w(|w| w.violate(&[p], msg));
+    }
+    fn sync_live(&self) {
+        let m: BTreeMap<usize, Cid> = self.live.iter().map(|(k, c)| (self.slot_ids[k], *c)).collect();
+        w(|w| w.live_slot = m);
+    }
+}
+
+fn new_member(h: &mut Hist, p: &Profile, nested_pct: u32) -> (Member, Cid) {
+    let idx = h.next_idx;
+    h.next_idx += 1;
+    let streams = h.streams;
+    let nested = w(|w| w.chance(nested_pct));
+    if nested {
+        // FutureGroup∘{join,try_join,race}, StreamGroup∘{merge,zip,chain}
+        let (fam, n) = w(|w| {
+            let fams: &[Fam] = if streams { &[Fam::Merge, Fam::Zip, Fam::Chain] } else { &[Fam::Join, Fam::TryJoin, Fam::Race] };
+            (fams[w.below(fams.len())], 1 + w.below(3))
+        });
+        let cont = w(|w| [Cont::Vec, Cont::Array, Cont::Tuple][w.below(3)]);
+        let shape = Shape::flat(fam, cont, n);
+        let mut kinds = vec![];
+        shape.leaf_kinds(&mut kinds);
+        let scripts: Vec<LeafSpec> = kinds
+            .iter()
+            .map(|(st, _, _)| LeafSpec {
+                script: w(|w| {
+                    let never = w.chance(p.never_pct);
+                    engine_a::gen_script(w, p, *st, never, p.err_pct)
+                }),
+                always_ready: false,
+            })
+            .collect();
+        let mut b = Builder { scripts: VecDeque::from(scripts) };
+        let before = w(|w| w.ch.len());
+        let m = if streams { Member::S(b.build_str(&shape, Some((0, idx)))) } else { Member::F(b.build_fut(&shape, Some((0, idx)))) };
+        (m, before)
+    } else {
+        let cid = w(|w| {
+            let never = w.chance(p.never_pct);
+            let mut script = engine_a::gen_script(w, p, streams, never, p.err_pct);
+            if w.inject_panic && w.chance(12) {
+                let at = w.below(script.len().min(6).max(1));
+                script.insert(at, Step::Panic);
+            }
+            let mut c = Child::leaf(if streams { Kind::LeafStr } else { Kind::LeafFut }, script);
+            c.parent = Some((0, idx));
+            if c.never {
+                w.st.never_children += 1;
+            }
+            w.ch.push(c);
+            let cid = w.ch.len() - 1;
+            w.ch[0].kids.push(cid);
+            cid
+        });
+        let m = if streams { Member::S(Box::pin(KStr::Leaf(SStr::new(cid)))) } else { Member::F(Box::pin(KFut::Leaf(SFut::new(cid)))) };
+        (m, cid)
+    }
+}
+
+pub fn run(prop: &str, thorough: bool, case_seed: u64, sub: u64) -> ExecOut {
+    reset(Src::Rng(case_seed), true);
+    let prop_s: &'static str = match prop {
+        "C11" => "C11",
+        "C12" => "C12",
+        _ => {
+            if sub % 2 == 0 {
+                "C11"
+            } else {
+                "C12"
+            }
+        }
+    };
+    let streams = prop_s == "C12";
+    let mut p = engine_a::profile("ALL", thorough);
+    p.max_items = 3;
+    p.never_pct = 12;
+    let c02 = prop == "C02";
+    let (polls0, pend0) = w(|w| {
+        w.midfire_pct = p.midfire_pct;
+        w.inject_panic = c02;
+        (w.st.root_polls, w.st.child_pending)
+    });
+    let (cap0, keyed, nested_pct) = w(|w| (w.below(4), w.below(3) != 0, if w.below(4) == 0 { 30 } else { 0 }));
+    // group node = child 0
+    w(|w| {
+        let mut c = Child::node(if streams { Fam::SGroup } else { Fam::FGroup }, Cont::Group, 0);
+        c.created = true;
+        c.dropped = 0;
+        w.ch.push(c);
+        w.root = Some(0);
+        w.phase = Phase::Constructing;
+    });
+    let mut g = match (streams, keyed) {
+        (false, true) => G::FK(Box::pin(FutureGroup::with_capacity(cap0).keyed())),
+        (false, false) => G::FP(Box::pin(FutureGroup::with_capacity(cap0))),
+        (true, true) => G::SK(Box::pin(StreamGroup::with_capacity(cap0).keyed())),
+        (true, false) => G::SP(Box::pin(StreamGroup::with_capacity(cap0))),
+    };
+    w(|w| w.phase = Phase::Idle);
+    let mut h = Hist { streams, keyed, live: BTreeMap::new(), unknown: vec![], all_keys: vec![], ever_used: BTreeSet::new(), slot_ids: BTreeMap::new(), prop: prop_s, next_idx: 0 };
+    let mut out = ExecOut { key: format!("{}/{}", if streams { "stream_group" } else { "future_group" }, if keyed { "keyed" } else { "plain" }), ..Default::default() };
+    let mut runnable = true;
+    let mut inserts_left = 2 + w(|w| w.below(if thorough { 10 } else { 8 }));
+    let max_ops = 40 + w(|w| w.below(if thorough { 80 } else { 30 }));
+    let mut ops = 0usize;
+    let mut steps = 0usize;
+    let mut next_waker_id = 0usize;
+    let mut prev_waker: Option<(usize, Waker)> = None;
+    let mut panicked = false;
+    let mut saw_none = false;
+    let mut last_cap = cap0;
+    let mut draining = false;
+    let mut oplog: Vec<String> = vec![format!("with_capacity({cap0}){}", if keyed { ".keyed()" } else { "" })];
+    loop {
+        steps += 1;
+        PROGRESS.fetch_add(1, std::sync::atomic::Ordering::Relaxed);
+        if steps > 3000 {
+            out.inconclusive = Some("harness step budget exceeded".into());
+            break;
+        }
+        if panicked {
+            break;
+        }
+        if !draining && ops >= max_ops {
+            // history is over: let a wake-only executor run the group to quiescence (I6), then drop
+            if c02 && w(|w| w.below(2) == 0) {
+                w(|w| w.st.cancels += 1);
+                break; // cancellation at an arbitrary point
+            }
+            draining = true;
+        }
+        let (outstanding, nwakers) = w(|w| {
+            let o: Vec<Cid> = w.ch.iter().enumerate().filter(|(_, c)| c.later_outstanding).map(|(i, _)| i).collect();
+            let n: usize = w.ch.iter().map(|c| c.wakers.len()).sum();
+            (o, n)
+        });
+        let woken = w(|w| w.root_last == RootLast::Pending && w.parent_woken);
+        let can_poll = runnable || woken;
+        let mut opts: Vec<u8> = vec![];
+        if can_poll {
+            opts.extend([0, 0, 0]);
+        }
+        if !outstanding.is_empty() {
+            opts.extend([1, 1]);
+        }
+        if !draining {
+            if inserts_left > 0 {
+                opts.extend([2, 2]);
+            }
+            if !h.all_keys.is_empty() {
+                opts.push(3);
+            }
+            if nwakers > 0 {
+                opts.push(4);
+            }
+            if w(|w| w.below(8) == 0) {
+                opts.push(5);
+            }
+            if !can_poll && w(|w| w.below(10) == 0) {
+                opts.push(6);
+            }
+            if !streams && inserts_left > 1 && w(|w| w.below(10) == 0) {
+                opts.push(7);
+            }
+        }
+        if opts.is_empty() {
+            if draining {
+                break;
+            }
+            ops = max_ops;
+            continue;
+        }
+        if !draining && opts.iter().all(|o| *o == 3 || *o == 4) && w(|w| w.below(3) == 0) {
+            ops = max_ops;
+            continue;
+        }
+        let o = opts[w(|w| w.below(opts.len()))];
+        ops += 1;
+        match o {
+            0 | 6 => {
+                if o == 6 {
+                    w(|w| w.st.spurious_polls += 1);
+                }
+                let reuse = prev_waker.is_some() && w(|w| w.chance(10));
+                let (wid, waker) = if reuse {
+                    prev_waker.clone().unwrap()
+                } else {
+                    next_waker_id += 1;
+                    (next_waker_id, Waker::from(Arc::new(ParentWaker(next_waker_id))))
+                };
+                w(|w| {
+                    w.root_polls += 1;
+                    w.st.root_polls += 1;
+                    w.parent_cur = wid;
+                    w.parent_woken = false;
+                    w.phase = Phase::Polling;
+                    w.ch[0].model.cur.clear();
+                    let n = w.root_polls;
+                    w.ev(Ev::ExecPoll { n, waker: wid, spurious: o == 6 });
+                });
+                let was_empty = h.live.is_empty() && h.unknown.is_empty();
+                let mut cx = Context::from_waker(&waker);
+                let r = std::panic::catch_unwind(std::panic::AssertUnwindSafe(|| g.poll(&mut cx)));
+                prev_waker = Some((wid, waker));
+                w(|w| {
+                    w.phase = Phase::Idle;
+                    w.poll_stack.clear();
+                });
+                let res = match r {
+                    Ok(r) => r,
+                    Err(pn) => {
+                        panicked = true;
+                        let m = panic_msg(&pn);
+                        let inj = pn.is::<Injected>();
+                        w(|w| {
+                            w.root_last = RootLast::Panicked;
+                            w.ev(Ev::ExecRet(Res::Panicked));
+                        });
+                        if !inj {
+                            h.viol(format!("polling the group panicked: {m}"));
+                        }
+                        continue;
+                    }
+                };
+                // reference model for this poll, from what the members returned
+                let rets: Vec<(usize, Res)> = w(|w| std::mem::take(&mut w.ch[0].model.cur));
+                let member_of: BTreeMap<usize, Cid> = w(|w| w.ch[0].kids.iter().map(|c| (w.ch[*c].parent.unwrap().1, *c)).collect());
+                let mut exp: Option<(Option<K>, u64)> = None;
+                let mut ended: Vec<Cid> = vec![];
+                for (k, (idx, res)) in rets.iter().enumerate() {
+                    let c = member_of[idx];
+                    let key = h.live.iter().find(|(_, m)| **m == c).map(|(k, _)| *k);
+                    let is_live = key.is_some() || h.unknown.contains(&c);
+                    if !is_live {
+                        h.viol(format!("polled child {c}, which is not a live member (removed or already finished)"));
+                    }
+                    let mut forget = false;
+                    match res {
+                        Res::Ok(v) | Res::Err(v) => {
+                            exp = Some((key, *v));
+                            forget = true;
+                        }
+                        Res::Item(v) => exp = Some((key, *v)),
+                        Res::End => {
+                            forget = true;
+                            ended.push(c);
+                        }
+                        _ => {}
+                    }
+                    if forget {
+                        if let Some(k) = key {
+                            h.live.remove(&k);
+                        }
+                        h.unknown.retain(|x| *x != c);
+                    }
+                    if exp.is_some() {
+                        if k + 1 != rets.len() {
+                            h.viol("another member was polled after a member produced the value for this poll".into());
+                        }
+                        break;
+                    }
+                }
+                let now_empty = h.live.is_empty() && h.unknown.is_empty();
+                let expect: Poll<Option<(Option<K>, u64)>> = match exp {
+                    Some(e) => Poll::Ready(Some(e)),
+                    None => {
+                        if was_empty || now_empty {
+                            Poll::Ready(None)
+                        } else {
+                            Poll::Pending
+                        }
+                    }
+                };
+                // compare (a key is only comparable in keyed mode and when the member's key is known)
+                let matches = match (&res, &expect) {
+                    (Poll::Pending, Poll::Pending) => true,
+                    (Poll::Ready(None), Poll::Ready(None)) => true,
+                    (Poll::Ready(Some((gk, gv))), Poll::Ready(Some((ek, ev)))) => {
+                        gv == ev
+                            && match (gk, ek) {
+                                (Some(a), Some(b)) => a == b,
+                                (Some(a), None) => {
+                                    // member came from `extend`: learn its key; it must not belong to another live member
+                                    !h.live.contains_key(a)
+                                }
+                                _ => true,
+                            }
+                    }
+                    _ => false,
+                };
+                if !matches {
+                    h.viol(format!("group poll returned {res:?}, reference model says {expect:?} (member results this poll: {:?})", rets.iter().map(|(i, r)| format!("child {}:{}", member_of[i], fmt_res(r))).collect::<Vec<_>>()));
+                }
+                for c in ended {
+                    if w(|w| w.ch[c].dropped) != 1 {
+                        h.viol(format!("stream member {c} returned None but was not dropped in that poll"));
+                    }
+                }
+                h.sync_live();
+                let pend = res.is_pending();
+                w(|w| {
+                    w.root_last = match res {
+                        Poll::Pending => RootLast::Pending,
+                        Poll::Ready(Some(_)) => RootLast::Item,
+                        Poll::Ready(None) => RootLast::NotPolled,
+                    };
+                    let r = match res {
+                        Poll::Pending => Res::Pend,
+                        Poll::Ready(Some((_, v))) => Res::Item(v),
+                        Poll::Ready(None) => Res::End,
+                    };
+                    if pend {
+                        w.st.root_pending += 1;
+                    }
+                    if r == Res::End {
+                        w.st.group_none += 1;
+                    }
+                    w.ev(Ev::ExecRet(r));
+                    if pend {
+                        model::i2_check(w);
+                    }
+                    model::i1_check(w, "after poll");
+                });
+                if matches!(res, Poll::Ready(None)) {
+                    saw_none = true;
+                }
+                runnable = matches!(res, Poll::Ready(Some(_)));
+            }
+            1 => {
+                let c = outstanding[w(|w| w.below(outstanding.len()))];
+                let (i, bv) = w(|w| (w.ch[c].wakers.len() - 1, w.below(4) == 0));
+                fire(c, i, bv, FireCtx::Between);
+                w(|w| model::i1_check(w, "after fire"));
+            }
+            4 => {
+                let (c, i, bv) = w(|w| {
+                    let with: Vec<Cid> = w.ch.iter().enumerate().filter(|(_, c)| !c.wakers.is_empty()).map(|(i, _)| i).collect();
+                    let c = with[w.below(with.len())];
+                    let k = w.ch[c].wakers.len();
+                    (c, w.below(k), w.below(4) == 0)
+                });
+                fire(c, i, bv, FireCtx::Between);
+                w(|w| model::i1_check(w, "after stale fire"));
+            }
+            2 | 7 => {
+                let count = if o == 7 { 1 + w(|w| w.below(2)) } else { 1 };
+                let mut batch: Vec<(Member, Cid)> = vec![];
+                for _ in 0..count {
+                    if inserts_left == 0 {
+                        break;
+                    }
+                    inserts_left -= 1;
+                    batch.push(new_member(&mut h, &p, nested_pct));
+                }
+                w(|w| {
+                    w.phase = Phase::GroupOp;
+                    w.st.group_inserts += batch.len() as u64;
+                    if saw_none {
+                        w.st.group_refills += 1;
+                    }
+                });
+                saw_none = false;
+                if o == 7 {
+                    let ids: Vec<Cid> = batch.iter().map(|b| b.1).collect();
+                    w(|w| w.ev(Ev::Op(format!("extend({ids:?})"))));
+                    oplog.push(format!("extend({ids:?})"));
+                    let futs: Vec<BF> = batch.into_iter().map(|(m, _)| match m { Member::F(f) => f, Member::S(_) => unreachable!() }).collect();
+                    let r = std::panic::catch_unwind(std::panic::AssertUnwindSafe(|| g.fg().unwrap().extend(futs)));
+                    if let Err(pn) = r {
+                        h.viol(format!("extend panicked: {}", panic_msg(&pn)));
+                        panicked = true;
+                    }
+                    h.unknown.extend(ids);
+                } else {
+                    let (m, cid) = batch.pop().unwrap();
+                    let r = std::panic::catch_unwind(std::panic::AssertUnwindSafe(|| g.insert(m)));
+                    match r {
+                        Err(pn) => {
+                            h.viol(format!("insert panicked: {}", panic_msg(&pn)));
+                            panicked = true;
+                        }
+                        Ok(k) => {
+                            if h.live.contains_key(&k) {
+                                h.viol(format!("insert returned key {k:?}, which belongs to a live member"));
+                            }
+                            let sid = h.slot_id(k);
+                            if !h.ever_used.insert(k) {
+                                w(|w| w.st.group_reuse_inserts += 1);
+                            }
+                            h.live.insert(k, cid);
+                            if !h.all_keys.contains(&k) {
+                                h.all_keys.push(k);
+                            }
+                            w(|w| {
+                                w.ch[cid].slot = Some(sid);
+                                w.ev(Ev::Op(format!("insert(child {cid}) -> slot {sid}")));
+                            });
+                            oplog.push(format!("insert(child {cid})->slot{sid}"));
+                        }
+                    }
+                }
+                w(|w| {
+                    w.phase = Phase::Idle;
+                    // owner action: the owner polls again after inserting; the group (correctly) wakes nobody
+                    if w.root_last == RootLast::Pending {
+                        w.root_last = RootLast::NotPolled;
+                    }
+                });
+                h.sync_live();
+                runnable = true;
+            }
+            3 => {
+                let k = h.all_keys[w(|w| w.below(h.all_keys.len()))];
+                let sid = h.slot_id(k);
+                w(|w| {
+                    w.phase = Phase::GroupOp;
+                    w.st.group_removes += 1;
+                    w.ev(Ev::Op(format!("remove(slot {sid})")));
+                });
+                oplog.push(format!("remove(slot{sid})"));
+                let r = std::panic::catch_unwind(std::panic::AssertUnwindSafe(|| g.remove(k)));
+                w(|w| w.phase = Phase::Idle);
+                match r {
+                    Err(pn) => {
+                        h.viol(format!("remove panicked: {}", panic_msg(&pn)));
+                        panicked = true;
+                    }
+                    Ok(r) => {
+                        // a key of an `extend`-inserted member may coincide with a key we know from earlier
+                        let known = h.live.contains_key(&k);
+                        if known && !r {
+                            h.viol(format!("remove(slot {sid}) returned false although the member is live"));
+                        }
+                        if !known && r {
+                            if h.unknown.is_empty() {
+                                h.viol(format!("remove(slot {sid}) returned true although no member lives there"));
+                            } else {
+                                // it removed one of the extend-inserted members: find out which one was dropped
+                                let gone: Vec<Cid> = h.unknown.iter().cloned().filter(|c| w(|w| w.ch[*c].dropped) > 0).collect();
+                                if gone.len() != 1 {
+                                    h.viol(format!("remove(slot {sid}) returned true but {} extend-inserted members were dropped", gone.len()));
+                                }
+                                h.unknown.retain(|c| !gone.contains(c));
+                            }
+                        }
+                        if let Some(c) = h.live.remove(&k) {
+                            if w(|w| w.ch[c].dropped) != 1 {
+                                h.viol(format!("removed member {c} was not dropped at removal"));
+                            }
+                        }
+                    }
+                }
+                h.sync_live();
+                if h.live.is_empty() && h.unknown.is_empty() {
+                    runnable = true;
+                    w(|w| {
+                        if w.root_last == RootLast::Pending {
+                            w.root_last = RootLast::NotPolled;
+                        }
+                    });
+                }
+            }
+            _ => {
+                let n = w(|w| w.below(6));
+                w(|w| {
+                    w.phase = Phase::GroupOp;
+                    w.st.group_reserves += 1;
+                    w.ev(Ev::Op(format!("reserve({n})")));
+                });
+                oplog.push(format!("reserve({n})"));
+                let r = std::panic::catch_unwind(std::panic::AssertUnwindSafe(|| g.reserve(n)));
+                w(|w| w.phase = Phase::Idle);
+                if let Err(pn) = r {
+                    h.viol(format!("reserve panicked: {}", panic_msg(&pn)));
+                    panicked = true;
+                }
+            }
+        }
+        if panicked {
+            continue;
+        }
+        // set view after every operation
+        let (len, cap, empty) = g.len_cap_empty();
+        let mlen = h.live.len() + h.unknown.len();
+        if len != mlen || empty != (mlen == 0) {
+            h.viol(format!("len() = {len}, is_empty() = {empty}, but {mlen} members are live in the model"));
+        }
+        if cap < len {
+            h.viol(format!("capacity() = {cap} < len() = {len}"));
+        }
+        if cap > last_cap {
+            w(|w| w.st.group_grows += 1);
+        }
+        last_cap = cap;
+        if h.unknown.is_empty() {
+            for k in h.all_keys.clone() {
+                let c = g.contains(k);
+                if c != h.live.contains_key(&k) {
+                    let sid = h.slot_id(k);
+                    h.viol(format!("contains_key(slot {sid}) = {c}, model says {}", !c));
+                }
+            }
+        } else {
+            for k in h.live.keys().cloned().collect::<Vec<_>>() {
+                if !g.contains(k) {
+                    let sid = h.slot_id(k);
+                    h.viol(format!("contains_key(slot {sid}) = false for a live member"));
+                }
+            }
+        }
+    }
+    let rl = w(|w| w.root_last);
+    if draining && !panicked && out.inconclusive.is_none() && rl == RootLast::Pending && !runnable {
+        w(|w| model::i6_check(w));
+    }
+    let cancelled = !draining;
+    out.desc = format!("{} {} ops=[{}]", if streams { "StreamGroup" } else { "FutureGroup" }, if keyed { "keyed" } else { "plain" }, oplog.join("; "));
+    w(|w| w.ch[0].dropped = 1); // the bookkeeping node itself is not a child of the group
+    engine_a::finish(&mut out, Some(Box::new(move || drop(g))), vec![], polls0, pend0, cancelled);
+    let _ = h.keyed;
+    out
+}
+
